@@ -50,7 +50,9 @@ func runC09(c *Ctx) {
 	c.Floor("C09.R1.PA1", pa1(c, p, "C09.R1.PA1", scope), 12, "attack-pattern ∩ piece-set sites")
 	c.Floor("C09.R1.PA2", pa2(c, p, "C09.R1.PA2", inFuncs("board.(*Board).IsStalemate")), 4, "mobility sites whose origin square comes from a piece set")
 	c.Floor("C09.R1.PA4", pa4(c, p, "C09.R1.PA4", scope), 4, "pawn-capture colour sites")
-	c.Floor("C09.R1.WRAP", pa5(c, p, "C09.R1.WRAP", scope), 2, "one-file bitboard shifts")
+	if n := pa5(c, p, "C09.R1.WRAP", scope); n == 0 {
+		c.OkTrivial("C09.R1.WRAP", "none", 0, "no one-file bitboard shift of a piece set in the two tests and their helpers")
+	}
 	c09R2(c, p)
 	c09R3(c, p)
 	c09R4(c, p)
@@ -58,6 +60,8 @@ func runC09(c *Ctx) {
 	c09R6(c, p)
 	c09R7(c, p)
 	c09R8(c, p)
+	// IsCheckmate finds the interposition squares in attacks.InBetween: the table's fill is a premise of C09
+	c.As("C12.R7", "C09.R9.between-table", func() { c12R7(c, p) })
 }
 
 // pinTest is one `F(kingSq, occ') & pieces & opp != 0` condition.
@@ -406,6 +410,72 @@ func c09R3(c *Ctx, p *Prog) {
 					}
 					if sameValue(call.Call.Args[0], ci.Common().Args[0], 0) && isFieldLoad(stripConv(call.Call.Args[1]), "Board.STM") {
 						ic = call
+					}
+				}
+				// the test result may be handed to a helper as a bool parameter: every caller must pass InCheck(STM) of the same board
+				if ic == nil {
+					viaParam := false
+					allOK := true
+					for _, ce := range controllingConds(ci.Block()) {
+						v, pol := ce.Cond, ce.True
+						if u, ok := v.(*ssa.UnOp); ok && u.Op == token.NOT {
+							v, pol = u.X, !pol
+						}
+						par, ok := v.(*ssa.Parameter)
+						if !ok || pol != tc.want {
+							continue
+						}
+						pix, bix := -1, -1
+						for i, q := range fn.Params {
+							if q == par {
+								pix = i
+							}
+							if ssa.Value(q) == stripConv(ci.Common().Args[0]) {
+								bix = i
+							}
+						}
+						if pix < 0 || bix < 0 {
+							continue
+						}
+						sites := 0
+						for _, caller := range p.OwnFuncs() {
+							allInstrs(caller, func(in ssa.Instruction) {
+								cc, ok := in.(ssa.CallInstruction)
+								if !ok || cc.Common().StaticCallee() != fn {
+									return
+								}
+								sites++
+								arg := stripConv(cc.Common().Args[pix])
+								call, ok := arg.(*ssa.Call)
+								if !ok || objName(calleeObj(call)) != "board.(*Board).InCheck" || !sameValue(call.Call.Args[0], cc.Common().Args[bix], 0) || !isFieldLoad(stripConv(call.Call.Args[1]), "Board.STM") {
+									allOK = false
+									return
+								}
+								// position unchanged between the test and the helper call
+								allInstrs(caller, func(m ssa.Instruction) {
+									for _, s := range []string{"board.(*Board).MakeMove", "board.(*Board).UndoMove", "board.(*Board).MakeNullMove", "board.(*Board).UndoNullMove"} {
+										if isCallTo(m, s) {
+											a, _ := reachAvoiding(call, m, func(x ssa.Instruction) bool { return x == in })
+											b2, _ := reachAvoiding(m, in, func(x ssa.Instruction) bool { return x == ssa.Instruction(call) })
+											if a && b2 {
+												allOK = false
+											}
+										}
+									}
+								})
+							})
+						}
+						if sites > 0 {
+							viaParam = true
+						}
+					}
+					if viaParam && allOK {
+						c.Ok(rule, key, ci.Pos(), "called under a parameter that every caller fills with InCheck(STM) == %v of the same, unchanged position", tc.want)
+						continue
+					}
+					if viaParam {
+						c.Fail(rule, key, ci.Pos(), "%s is called under a bool parameter, but not every caller passes InCheck(STM) of the same unchanged board for it", tc.spec)
+						continue
 					}
 				}
 				if ic == nil {
